@@ -145,7 +145,8 @@ def main(argv=None) -> int:
     bad = 0
     for r in res:
         print(r["id"], r["status"], r.get("by") or r.get("detail") or "")
-        if r["status"] in ("MISSED", "FALSE-ALARM", "broken-edit", "analysis-error", "internal-error"):
+        is_mutant = any(e["id"] == r["id"] and e["kind"] == "mutant" for e in edits)
+        if r["status"] in ("MISSED", "FALSE-ALARM", "broken-edit", "internal-error") or (r["status"] == "analysis-error" and not is_mutant):
             bad += 1
     print(f"{len(res)} edits, {bad} problems")
     return 2 if bad else 0
